@@ -75,12 +75,14 @@ def x86_fp_func(name, rng, npush=None, alloc=None, early=False, noreturn=False):
         e, off = epilogue(off, spd); b += e
     return Func(name, "fp", b, off)
 
-def x86_frameless_func(name, rng, npush=None, alloc=None, early=False, noreturn=False):
+def x86_frameless_func(name, rng, npush=None, alloc=None, early=False, noreturn=False, bp_first=False):
     r = R("x86")
     npush = rng.range(0, 3) if npush is None else npush
     alloc = 8 * rng.range(0 if npush else 1, 6) if alloc is None else alloc
     # which push (if any) saves rbp; afterwards the function uses rbp as a scratch register
     bp_push = rng.below(npush) if npush and rng.chance(1, 2) else None
+    if bp_first:
+        bp_push = 0
     b = []
     off = 0
     spd = 0
@@ -179,11 +181,13 @@ def a64_fp_func(name, rng, frame=None, signing=False, early=False, noreturn=Fals
         e, off = epilogue(off); b += e
     return Func(name, "fp-sign" if signing else "fp", b, off, signing=signing, vendor_at=vendor_at)
 
-def a64_frameless_func(name, rng, frame=None, noreturn=False):
+def a64_frameless_func(name, rng, frame=None, noreturn=False, top_slot=False):
     """sub sp; str x30,[sp,#k] (no frame record)"""
     r = R("a64")
     frame = 16 * rng.range(1, 5) if frame is None else frame
     slot = 8 * rng.range(0, frame // 8 - 1)
+    if top_slot:
+        slot = frame - 8 * rng.range(1, 2)          # lr saved at the top of a large frame
     b = []
     off = 0
     entry_row = dict(cfa=("r", r["sp"], 0), fp=("s",), ra=("s",))
@@ -219,6 +223,13 @@ def make_program(rng, arch, nfuncs=8):
                 f = x86_frameless_func("f%d" % i, rng, early=rng.chance(1, 4), noreturn=rng.chance(1, 6))
             else:
                 f = x86_leaf_func("f%d" % i, rng)
+            if i >= nfuncs - 2:
+                # two functions with a frame around the limits of the compressed rules (i16 / u16 slots of 8 bytes):
+                # push rbp; [push]; sub rsp, N   with rbp's slot 256 KiB and more above rsp
+                f = x86_frameless_func("f%d" % i, rng, npush=rng.range(1, 2),
+                                       alloc=rng.choice([0x3fff0, 0x3fff8, 0x40000, 0x40008, 0x50000, 0x7ffe8, 0x7fff0, 0x80000]),
+                                       bp_first=True)
+                f.shape = "bigframe"
         else:
             if c < 4:
                 f = a64_fp_func("f%d" % i, rng, signing=rng.chance(1, 3), early=rng.chance(1, 4), noreturn=rng.chance(1, 6))
@@ -226,6 +237,9 @@ def make_program(rng, arch, nfuncs=8):
                 f = a64_frameless_func("f%d" % i, rng, noreturn=rng.chance(1, 6))
             else:
                 f = a64_leaf_func("f%d" % i, rng)
+            if i >= nfuncs - 2:
+                f = a64_frameless_func("f%d" % i, rng, frame=rng.choice([0x3fff0, 0x40000, 0x40010, 0x50000, 0xffff0, 0x100000]), top_slot=True)
+                f.shape = "bigframe"
         funcs.append(f)
     # lay out: adjacent, sometimes with gaps; function after a noreturn one starts right at its end
     pos = 0x1000
@@ -304,8 +318,16 @@ def make_scenario(rng, arch, funcs, base_avma, stack_top, depth, sign_mask=None)
     pc = base_avma + inner["func"].start + inner["b"].off
     # fill the rest of the window with plausible junk
     lo = min([fr["sp"] for fr in frames]) - 64
-    for a in range(lo & ~7, stack_top + 64, 8):
-        mem.setdefault(a, 0x0bad0000 + ((a - stack_top) & 0xff8))
+    if stack_top - lo <= 0x4000:
+        spans = [(lo & ~7, stack_top + 64)]
+    else:
+        # large frames: only the neighbourhood of every frame's two ends
+        spans = [(stack_top - 0x200, stack_top + 64)]
+        for fr in frames:
+            spans += [((fr["sp"] - 64) & ~7, (fr["sp"] & ~7) + 0x100), ((fr["cfa"] & ~7) - 0x100, (fr["cfa"] & ~7) + 64)]
+    for a0, a1 in spans:
+        for a in range(a0, a1, 8):
+            mem.setdefault(a, 0x0bad0000 + ((a - stack_top) & 0xff8))
     chain = []
     for k in range(len(frames) - 1, 0, -1):
         fr = frames[k]
